@@ -827,7 +827,7 @@ pub fn run(ops: &[String]) -> Vec<String> {
 // generators
 // ---------------------------------------------------------------------------------------------
 
-fn gen_rate_value(rng: &mut Rng) -> String {
+pub(crate) fn gen_rate_value(rng: &mut Rng) -> String {
 	let r = match rng.below(16) {
 		0..=5 => 1.0,
 		6 => -1.0,
@@ -854,7 +854,7 @@ fn gen_rate_value(rng: &mut Rng) -> String {
 		format!("fix:{}", o64(r))
 	}
 }
-fn gen_vol_value(rng: &mut Rng, neutral: bool) -> String {
+pub(crate) fn gen_vol_value(rng: &mut Rng, neutral: bool) -> String {
 	if neutral {
 		return format!("fix:{}", o32(0.0));
 	}
@@ -874,13 +874,13 @@ fn gen_vol_value(rng: &mut Rng, neutral: bool) -> String {
 		_ => format!("fix:{}", o32(0.0)),
 	}
 }
-fn gen_pan_value(rng: &mut Rng, neutral: bool) -> String {
+pub(crate) fn gen_pan_value(rng: &mut Rng, neutral: bool) -> String {
 	if neutral {
 		return format!("fix:{}", o32(0.0));
 	}
 	format!("fix:{}", o32(rng.pick(&[0.0f32, 0.0, 0.0, -1.0, 1.0, 0.3, -0.5, 2.0])))
 }
-fn gen_chunk(rng: &mut Rng) -> u64 {
+pub(crate) fn gen_chunk(rng: &mut Rng) -> u64 {
 	match rng.below(10) {
 		0 => 1,
 		1 => 2,
@@ -894,7 +894,7 @@ fn gen_chunk(rng: &mut Rng) -> u64 {
 	}
 }
 /// a tween for life-cycle commands: duration 0, shorter than a chunk, about a chunk, long
-fn gen_life_tween(rng: &mut Rng, chunk_secs: f64) -> String {
+pub(crate) fn gen_life_tween(rng: &mut Rng, chunk_secs: f64) -> String {
 	let d = match rng.below(6) {
 		0 => 0,
 		1 => (chunk_secs * 0.3 * 1e9) as u64,
@@ -911,7 +911,7 @@ fn gen_life_tween(rng: &mut Rng, chunk_secs: f64) -> String {
 	let easing = rng.pick(&["lin", "lin", "ipi:2", "opi:3", "iopi:2", "ipf:3ff8000000000000", "opf:3fe0000000000000"]);
 	format!("{};{};{}", start, d, easing)
 }
-fn gen_start_time(rng: &mut Rng, chunk_secs: f64) -> String {
+pub(crate) fn gen_start_time(rng: &mut Rng, chunk_secs: f64) -> String {
 	match rng.below(12) {
 		0 => "del:0".to_string(),
 		1 => format!("del:{}", (chunk_secs * rng.uniform(0.2, 4.0) * 1e9) as u64),
@@ -920,13 +920,13 @@ fn gen_start_time(rng: &mut Rng, chunk_secs: f64) -> String {
 	}
 }
 
-struct Shape {
-	sr: u64,
-	len: u64,
-	slice: Option<(u64, u64)>,
-	n: u64,
+pub(crate) struct Shape {
+	pub sr: u64,
+	pub len: u64,
+	pub slice: Option<(u64, u64)>,
+	pub n: u64,
 }
-fn gen_shape(rng: &mut Rng) -> Shape {
+pub(crate) fn gen_shape(rng: &mut Rng) -> Shape {
 	let sr = rng.pick(&[1u64, 1, 2, 4, 8, 10, 49, 1000, 44100, 48000]);
 	let len = match rng.below(10) {
 		0 => 0,
@@ -947,7 +947,7 @@ fn gen_shape(rng: &mut Rng) -> Shape {
 	let n = slice.map(|(a, b)| b - a).unwrap_or(len);
 	Shape { sr, len, slice, n }
 }
-fn fmt_slice(rng: &mut Rng, sh: &Shape) -> String {
+pub(crate) fn fmt_slice(rng: &mut Rng, sh: &Shape) -> String {
 	match sh.slice {
 		None => "none".to_string(),
 		Some((a, b)) => {
@@ -960,7 +960,7 @@ fn fmt_slice(rng: &mut Rng, sh: &Shape) -> String {
 		}
 	}
 }
-fn gen_valid_loop(rng: &mut Rng, n: u64, sr: u64) -> String {
+pub(crate) fn gen_valid_loop(rng: &mut Rng, n: u64, sr: u64) -> String {
 	if n == 0 {
 		return "none".to_string();
 	}
@@ -974,7 +974,7 @@ fn gen_valid_loop(rng: &mut Rng, n: u64, sr: u64) -> String {
 }
 
 /// device `dt` for a sound at sample rate `sr`
-fn gen_dt(rng: &mut Rng, sr: u64) -> f64 {
+pub(crate) fn gen_dt(rng: &mut Rng, sr: u64) -> f64 {
 	match rng.below(8) {
 		0 => 1.0 / (2.0 * sr as f64),
 		1 => 2.0 / sr as f64,
